@@ -26,6 +26,18 @@ typedef struct verif_attr_list *LPPROC_THREAD_ATTRIBUTE_LIST;
 #define INVALID_HANDLE_VALUE ((HANDLE) (intptr_t) -1)
 #define INFINITE 0xFFFFFFFFu
 #define WAIT_FAILED 0xFFFFFFFFu
+#define WAIT_OBJECT_0 0u
+#define WAIT_TIMEOUT 258u
+#define WAIT_ABANDONED 0x80u
+#define STILL_ACTIVE 259u
+#define STATUS_CONTROL_C_EXIT 0xC000013Au
+#define ERROR_SUCCESS 0u
+#define ERROR_FILE_NOT_FOUND 2u
+#define ERROR_ACCESS_DENIED 5u
+#define ERROR_NOT_SUPPORTED 50u
+#define ERROR_GEN_FAILURE 31u
+#define TRUE 1
+#define FALSE 0
 
 #define CREATE_NEW_PROCESS_GROUP 0x00000200u
 #define CREATE_UNICODE_ENVIRONMENT 0x00000400u
